@@ -224,12 +224,13 @@ func (r *Router) ListActiveServices() ServiceDescriptionMap {
 
 				path := strings.Join(service.options.PathPrefixes, ",")
 				target := strings.Join(active.Targets().Names(), ",")
+				tlsEnabled, _ := service.tlsOptions()
 
 				result[name] = ServiceDescription{
 					Host:   host,
 					Path:   path,
 					Target: target,
-					TLS:    service.options.TLSEnabled,
+					TLS:    tlsEnabled,
 					State:  service.pauseController.GetState().String(),
 				}
 			}
